@@ -238,6 +238,41 @@ func Go(f func()) {
 	s.Yield(KGo, len(s.tasks)-1)
 }
 
+// Procs is what the code under test is told about the machine in the current run (chosen by
+// the workload from the tape): GOMAXPROCS and NumCPU.
+var Procs = 4
+
+// GOMAXPROCS is the stand-in for runtime.GOMAXPROCS: it reports the simulated value and
+// accepts (and ignores) a new one, as far as the simulation is concerned.
+func GOMAXPROCS(n int) int {
+	old := Procs
+	if n > 0 && Cur != nil {
+		Procs = n
+	}
+	return old
+}
+
+// NumCPU is the stand-in for runtime.NumCPU.
+func NumCPU() int { return Procs }
+
+// NumGoroutine is the stand-in for runtime.NumGoroutine: the simulated tasks that are alive.
+func NumGoroutine() int {
+	s := Cur
+	if s == nil {
+		return 1
+	}
+	n := 0
+	for _, t := range s.tasks {
+		if !t.done && t.arriveAt <= s.Steps {
+			n++
+		}
+	}
+	if n == 0 {
+		n = 1
+	}
+	return n
+}
+
 // ClearPending forgets goroutines started outside a run so far (the harness calls it before
 // re-initialising the packages, so that exactly one initialisation's goroutines join a run).
 func ClearPending() { pendingInit = nil }
